@@ -51,6 +51,19 @@ func parseCase(r *hx.Run, spec string, raw []byte, onlyCrash bool, tags ...strin
 				fail = "re-serialised header||body is not bytes 0-631 of the input"
 			}
 		}
+		// the parsed quote stands on its own: what the caller does with its buffer afterwards must not reach it
+		// (parse, reuse the buffer, serialise — must still give the parsed bytes)
+		if fail == "" {
+			scratch := append([]byte{}, raw...)
+			if q2, e2 := abi.QuoteToProto(scratch); e2 == nil {
+				for i := range scratch {
+					scratch[i] ^= 0xa5
+				}
+				if back, e3 := abi.QuoteToAbiBytes(q2); e3 != nil || !bytes.Equal(back, raw) {
+					fail = "after the caller reused its input buffer the parsed quote no longer serialises to the bytes it was parsed from (a field shares memory with the input)"
+				}
+			}
+		}
 	}
 	key := spec
 	if len(key) > 80 {
